@@ -715,6 +715,17 @@ def fam_iter_clone(cfg, tier, rng):
                             out.append(pre + ["iter_clone %s 0 %s %s" % (k, "".join(p1) or "-", "".join(p2) or "-")])
     return out
 
+def fam_cursor_max(cfg, tier, rng):
+    """C14: the range iterator's cursor pair at the very end of the index space (usize::MAX)."""
+    if not (cfg["sz"] == 0 and cfg["dg"] == 0 and cfg["be"] == "heap"):
+        return []
+    out = []
+    for l in range(0, 7):
+        for pat in itertools.product("FB", repeat=l):
+            for a in "et":
+                out.append(["cursor_max %s %s" % (a, "".join(pat) or "-")])
+    return out
+
 def fam_iter_nth(cfg, tier, rng):
     """C13/C14: Iterator::nth / nth_back (the i-th item, overshoot, calls after exhaustion)."""
     L = 3 if tier == "quick" else 5
@@ -742,6 +753,7 @@ FAMILIES = {
     "parts": fam_parts,
     "iter_clone": fam_iter_clone,
     "iter_nth": fam_iter_nth,
+    "cursor_max": fam_cursor_max,
     "placement": fam_placement,
     "fuse": fam_fuse,
     "lazyfuse": fam_lazyfuse,
